@@ -522,6 +522,11 @@ func (x *Exec) val(v ssa.Value) Val {
 			// reassigned after package initialisation, so no call changes them
 			name = "G_const_" + sanitize(v.Pkg.Pkg.Name()+"_"+v.Name())
 			x.assumed["sentinel error variables of packages outside the module (io.EOF, ...) are never reassigned"] = true
+		} else if types.IsInterface(et) && et.String() == "error" && initOnlyGlobal(v) {
+			// unexported error variable of the module written only by its package initialiser
+			// (checked on the SSA of the whole package, see initonly.go): no call changes it
+			name = "G_const_" + sanitize(v.Pkg.Pkg.Name()+"_"+v.Name())
+			x.assumed["unexported error variable "+v.Pkg.Pkg.Name()+"."+v.Name()+" is written only by the package initialiser (checked on the package's SSA each run)"] = false
 		}
 		return Val{A: &Addr{Kind: aGlobal, Comp: name, Typ: et}}
 	case *ssa.Function:
